@@ -1,4 +1,5 @@
 import QM.RenderUnit
+import QM.ConformModel
 /-! # C03 — unit files parse losslessly and independently of their spelling
 
 `Parse.parse env` is the model of `SystemdUnit::load_from_str` (parser.rs + `add_raw` validation),
